@@ -147,6 +147,28 @@ def controlling_switches(f, loc):
     return out
 
 
+def _buf_accessor_from_parts(facts, call_expr):
+    """`buf.is_empty()` / `buf.len()` on a buffer wrapper that leaves them at the trait's defaults, which read
+    `parts()`: as good as testing `parts().1` itself"""
+    if not (call_expr[0] == 'call' and call_expr[1] in ('io::traits::Buf::is_empty', 'io::traits::Buf::len')):
+        return False
+    # the defaults: is_empty -> len -> parts
+    dlen, dempty = facts.fn_opt('io::traits::Buf::len'), facts.fn_opt('io::traits::Buf::is_empty')
+    if dlen is None or dempty is None:
+        return False
+    if not any((t.get('callee') or '') == 'io::traits::Buf::parts' for l, t in dlen.calls()):
+        return False
+    if not any((t.get('callee') or '') == 'io::traits::Buf::len' for l, t in dempty.calls()):
+        return False
+    # the wrappers the composites use (SkipBuf): no override of either
+    for i in facts.impls_of('io::traits::Buf'):
+        if (i.get('self_adt') or '').endswith('SkipBuf'):
+            names = {it['name'] for it in i['items']}
+            if names & {'len', 'is_empty'}:
+                return False
+    return True
+
+
 def r3_completion_test(r, facts):
     n = 0
     for g, loc, t in composites(facts):
@@ -166,6 +188,7 @@ def r3_completion_test(r, facts):
             txt = str(de)
             indexed = [x for x in subexprs(de) if x[0] == 'proj' and any(re.match(r'^\[', p) for p in x[2])]
             whole = any(x[0] == 'call' and (x[1].endswith('::parts') or x[1] in ('std::iter::Iterator::all', 'std::iter::Iterator::any', 'io::traits::BufSlice::total_len', 'std::iter::Iterator::sum')) for x in subexprs(de))
+            whole = whole or any(_buf_accessor_from_parts(facts, x) for x in subexprs(de))
             r.inst('%s: done-test %s' % (short(g.path), txt[:160]), g.where(g.term_loc(b)))
             if indexed and not whole:
                 r.bad('%s/done-test' % short(g.path), 'completion is decided from one indexed buffer (%s): with an empty buffer in that position any partial transfer reports success' % (indexed[0],), g.where(g.term_loc(b)))
@@ -199,6 +222,9 @@ def zero_test(f, eb, kind):
                     return b, vals.get(0), vals.get(1, t['otherwise'])
         else:
             e = eb.operand(d)
+            # `match buf.last_read { 0 => .., n => .. }`: a switch on the count itself
+            if t.get('discr_ty') != 'bool' and 0 in vals and fam.last_field(e) == 'last_read':
+                return b, vals[0], t['otherwise']
             if e[0] == 'bin' and e[1] in ('Eq', 'Ne') and e[3][0] == 'const' and e[3][1] == 0 and fam.last_field(e[2]) == 'last_read':
                 if e[1] == 'Eq':
                     return b, vals.get(1, t['otherwise']), vals.get(0)
@@ -237,6 +263,50 @@ def r4_zero_progress(r, facts):
     r.floor(8, 'composites')
 
 
+def offset_updates(g, eb):
+    """the values stored into the u64 `offset` field of a composite, one entry per alternative:
+    (location of the alternative, expression, guard) with guard 'ne' / 'eq' when the alternative is only reached
+    with offset != NO_OFFSET / offset == NO_OFFSET.  `if offset != NO_OFFSET { offset += n }` has one alternative;
+    `offset = if offset == NO_OFFSET { NO_OFFSET } else { offset + n }` (also inside a helper) has two."""
+    out = []
+    for l, s in g.assigns():
+        names = [p.get('name') for p in s['lhs']['p'] if p['k'] == 'field']
+        if not (names[-1:] == ['offset'] and s['lhs']['ty'] == 'u64'):
+            continue
+        alts = [(l, s['rv'])]
+        seen = set()
+        while True:
+            nxt = []
+            for al, rv in alts:
+                if rv['k'] == 'use' and 'l' in rv['op'] and not rv['op']['p'] and rv['op']['l'] not in seen:
+                    ds = [d for d in g.defs.get(rv['op']['l'], []) if not g.blocks[d[0][0]]['cleanup']]
+                    multi = len(ds) > 1 and all(d[1] == 'assign' for d in ds)
+                    chain = len(ds) == 1 and ds[0][1] == 'assign' and ds[0][2]['k'] == 'use' and 'l' in ds[0][2]['op'] and not ds[0][2]['op']['p']
+                    if multi or chain:
+                        seen.add(rv['op']['l'])
+                        nxt += [(d[0], d[2]) for d in ds]
+                        continue
+                nxt.append((al, rv))
+            if nxt == alts:
+                break
+            alts = nxt
+        for al, rv in alts:
+            e = eb.rvalue(rv)
+            if e[0] == 'proj' and e[2] == ('.0',):
+                e = e[1]
+            guard = None
+            for (b, tgt) in controlling_switches(g, al):
+                de = eb.operand(g.term(b)['discr'])
+                if de[0] == 'bin' and de[1] in ('Ne', 'Eq') and fam.last_field(de[2]) == 'offset' and de[3][0] == 'const' and str(de[3][2]).endswith('NO_OFFSET'):
+                    vals = {int(v): tg for v, tg in g.term(b)['targets']}
+                    t_true = vals.get(1, g.term(b)['otherwise'])
+                    holds = (tgt == t_true) if t_true != vals.get(0, g.term(b)['otherwise']) else None
+                    if holds is not None:
+                        guard = ('ne' if holds else 'eq') if de[1] == 'Ne' else ('eq' if holds else 'ne')
+            out.append((al, e, guard))
+    return out
+
+
 def r5_bookkeeping(r, facts):
     for g, loc, t in composites(facts):
         name = short(g.path)
@@ -255,26 +325,19 @@ def r5_bookkeeping(r, facts):
                     if e[0] == 'bin' and e[1].startswith('Add') and fam.last_field(e[2]) == 'skip':
                         src = [x for x in subexprs(e[3]) if (x[0] == 'proj' and x[2][-1:] == ('.1',)) or (x[0] == 'local' and x[2] == 'n')]
                         ok_skip = ok_skip or bool(src)
-                if names[-1:] == ['offset'] and s['lhs']['ty'] == 'u64':
-                    e = eb.rvalue(s['rv'])
-                    if e[0] == 'proj' and e[2] == ('.0',):
-                        e = e[1]
-                    if e[0] == 'bin' and e[1].startswith('Add') and fam.last_field(e[2]) == 'offset':
-                        # the increment is the byte count of *this* transfer (not a cumulative counter)
-                        inc = e[3]
-                        while inc[0] == 'cast':
-                            inc = inc[4]
-                        is_n = (inc[0] == 'local' and inc[2] == 'n') or (inc[0] == 'proj' and inc[2][-1:] == ('.1',) and '@Ok' in inc[2])
-                        r.require(is_n, '%s/offset-step' % name, 'the file offset is advanced by %s instead of the number of bytes of the last transfer: from the second continuation on data lands at the wrong position' % (inc,), g.where(l))
-                        # guarded by offset != NO_OFFSET
-                        guard = False
-                        for (b, tgt) in controlling_switches(g, l):
-                            de = eb.operand(g.term(b)['discr'])
-                            if de[0] == 'bin' and de[1] in ('Ne', 'Eq') and fam.last_field(de[2]) == 'offset' and de[3][0] == 'const' and str(de[3][2]).endswith('NO_OFFSET'):
-                                vals = {int(v): tg for v, tg in g.term(b)['targets']}
-                                want = vals.get(1, g.term(b)['otherwise']) if de[1] == 'Ne' else vals.get(0)
-                                guard = guard or (tgt == want)
-                        ok_off = guard if ok_off is None else (ok_off and guard)
+            for l, e, guard in offset_updates(g, eb):
+                if e[0] == 'bin' and e[1].startswith('Add') and fam.last_field(e[2]) == 'offset':
+                    # the increment is the byte count of *this* transfer (not a cumulative counter)
+                    inc = e[3]
+                    while inc[0] == 'cast':
+                        inc = inc[4]
+                    is_n = (inc[0] == 'local' and inc[2] == 'n') or (inc[0] == 'proj' and inc[2][-1:] == ('.1',) and '@Ok' in inc[2])
+                    r.require(is_n, '%s/offset-step' % name, 'the file offset is advanced by %s instead of the number of bytes of the last transfer: from the second continuation on data lands at the wrong position' % (inc,), g.where(l))
+                    # guarded by offset != NO_OFFSET
+                    ok_off = (guard == 'ne') if ok_off is None else (ok_off and guard == 'ne')
+                elif e[0] == 'const' and str(e[2]).endswith('NO_OFFSET') and guard != 'eq':
+                    # NO_OFFSET stored although the operation is positional: the position is lost
+                    ok_off = False
             r.inst('%s: skip+=n %s; offset advance guarded %s' % (name, ok_skip, ok_off), g.where())
             r.require(ok_skip, '%s/skip' % name, 'the transferred count does not advance the skip counter: bytes would be written twice', g.where())
             if 'Write' in name:
@@ -311,21 +374,11 @@ def r5_bookkeeping(r, facts):
             if 'Read' in name:
                 # positional continuation: offset += last_read under offset != NO_OFFSET
                 ok_off = None
-                for l, s in g.assigns():
-                    names = [p.get('name') for p in s['lhs']['p'] if p['k'] == 'field']
-                    if names[-1:] == ['offset'] and s['lhs']['ty'] == 'u64':
-                        e = eb.rvalue(s['rv'])
-                        if e[0] == 'proj' and e[2] == ('.0',):
-                            e = e[1]
-                        if e[0] == 'bin' and e[1].startswith('Add') and fam.last_field(e[2]) == 'offset' and any(fam.last_field(x) == 'last_read' for x in subexprs(e[3])):
-                            guard = False
-                            for (b, tgt) in controlling_switches(g, l):
-                                de = eb.operand(g.term(b)['discr'])
-                                if de[0] == 'bin' and de[1] in ('Ne', 'Eq') and fam.last_field(de[2]) == 'offset' and de[3][0] == 'const' and str(de[3][2]).endswith('NO_OFFSET'):
-                                    vals = {int(v): tg for v, tg in g.term(b)['targets']}
-                                    want = vals.get(1, g.term(b)['otherwise']) if de[1] == 'Ne' else vals.get(0)
-                                    guard = guard or (tgt == want)
-                            ok_off = guard if ok_off is None else (ok_off and guard)
+                for l, e, guard in offset_updates(g, eb):
+                    if e[0] == 'bin' and e[1].startswith('Add') and fam.last_field(e[2]) == 'offset' and any(fam.last_field(x) == 'last_read' for x in subexprs(e[3])):
+                        ok_off = (guard == 'ne') if ok_off is None else (ok_off and guard == 'ne')
+                    elif e[0] == 'const' and str(e[2]).endswith('NO_OFFSET') and guard != 'eq':
+                        ok_off = False
                 r.inst('%s: offset += last_read guarded by != NO_OFFSET: %s' % (name, ok_off), g.where())
                 r.require(ok_off is True, '%s/offset' % name, 'the read offset is not advanced by the bytes read under `offset != NO_OFFSET`', g.where())
     r.floor(8, 'composites')
